@@ -17,6 +17,7 @@
 package c18
 
 import (
+	"sync"
 	"bytes"
 	"fmt"
 	"strconv"
@@ -62,6 +63,12 @@ type Case struct {
 	Again []Part `json:"again,omitempty"`
 	// Reparsed: the message was populated by ReadFrom (a stored draft) before the text under test is set.
 	Reparsed bool `json:"reparsed,omitempty"`
+	// Foreign: the message carries a Content-Type with this charset label (a message received from another
+	// client) before the text under test is set; SetBody stores ISO-8859-1 and Body() must return the text.
+	Foreign string `json:"foreign,omitempty"`
+	// Concurrent: two other goroutines of the application set bodies on their own messages all the time while
+	// this text is set (each message is used by one goroutine only).
+	Concurrent bool `json:"concurrent,omitempty"`
 	Shape string `json:"shape,omitempty"` // generator families used (information only)
 }
 
@@ -238,6 +245,8 @@ func describe(text string, in []byte) (s shape) {
 }
 
 type outcome struct {
+	foreign    bool // the message carried a foreign Content-Type charset label before
+	concurrent bool // other goroutines were setting bodies on their own messages meanwhile
 	again    bool // another body had been set on the same message before
 	reparsed bool // ... and the message had been serialised and parsed back before the text under test was set
 	later   int // later SetBody calls on other messages after which the stored body was re-checked
@@ -259,6 +268,8 @@ func run(c Case) (sig, msg string, o outcome) {
 	o.hash = harness.Hash(text)
 
 	var laterSig, laterMsg string
+	var concSig, concMsg string
+	var concMu sync.Mutex
 	var (
 		setErr, bytesErr, bodyErr, readErr, body2Err error
 		raw                                          []byte
@@ -288,6 +299,46 @@ func run(c Case) (sig, msg string, o outcome) {
 					}
 				}
 			}
+		}
+		if c.Foreign != "" {
+			m.Header.Set("Content-Type", "text/plain; charset="+c.Foreign)
+			m.Header.Set("Content-Transfer-Encoding", "8bit")
+			o.foreign = true
+		}
+		if c.Concurrent {
+			stop := make(chan struct{})
+			var wg sync.WaitGroup
+			for w := 0; w < 2; w++ {
+				wg.Add(1)
+				go func(w int) {
+					defer wg.Done()
+					unit := []string{"Ærlig talt, Øystein\n", "ÅÅÅÅ ååååå ØØØ\r\n"}[w]
+					own := strings.Repeat(unit, 400)
+					wantOwn := stripCRLF(mustLatin1(own))
+					for i := 0; i < 100000; i++ {
+						select {
+						case <-stop:
+							return
+						default:
+						}
+						mw := fbb.NewMessage(fbb.Private, "N0CALL")
+						if err := mw.SetBody(own); err != nil {
+							continue
+						}
+						got, _ := mw.Body()
+						if gb, ok := toLatin1(got); !ok || !bytes.Equal(stripCRLF(gb), wantOwn) {
+							concMu.Lock()
+							if concSig == "" {
+								concSig, concMsg = "concurrent-setbody-mixes-texts", fmt.Sprintf("a goroutine that sets the same %d byte text on its own fresh messages read back a different body (iteration %d) while other goroutines were setting other bodies", len(own), i)
+							}
+							concMu.Unlock()
+							return
+						}
+					}
+				}(w)
+			}
+			defer func() { close(stop); wg.Wait() }()
+			o.concurrent = true
 		}
 		if setErr = m.SetBody(text); setErr != nil {
 			return
@@ -424,7 +475,15 @@ func run(c Case) (sig, msg string, o outcome) {
 	if laterSig != "" {
 		return laterSig, laterMsg, o
 	}
+	if concSig != "" {
+		return concSig, concMsg, o
+	}
 	return "", "", o
+}
+
+func mustLatin1(s string) []byte {
+	b, _ := toLatin1(s)
+	return b
 }
 
 func firstDiff(a, b []byte) int {
@@ -597,6 +656,14 @@ func genCase(t *rapid.T) Case {
 		c.Reparsed = rapid.Bool().Draw(t, "reparsed")
 		shapes = append(shapes, "again")
 	}
+	if rapid.IntRange(0, 7).Draw(t, "foreign") == 0 {
+		c.Foreign = rapid.SampledFrom([]string{"utf-8", "UTF-8", "windows-1252", "us-ascii", "iso-8859-15"}).Draw(t, "foreign_cs")
+		shapes = append(shapes, "foreign-content-type")
+	}
+	if rapid.IntRange(0, 19).Draw(t, "concurrent") == 0 {
+		c.Concurrent = true
+		shapes = append(shapes, "concurrent")
+	}
 	// history: in half of the cases 1..3 later texts are set on other messages afterwards
 	if rapid.Bool().Draw(t, "history") {
 		n := rapid.IntRange(1, 3).Draw(t, "n_later")
@@ -648,6 +715,8 @@ func account(c Case, o outcome) {
 	lab(s.emptyLines > 0, "empty-lines")
 	lab(o.later > 0, "history:stored-body-rechecked-after-later-SetBody")
 	lab(o.again, "history:second-SetBody-on-the-same-message")
+	lab(o.foreign, "history:message-carried-a-foreign-Content-Type-charset")
+	lab(o.concurrent, "concurrent:other-goroutines-set-bodies-on-their-own-messages")
 	lab(o.reparsed, "history:SetBody-on-a-message-populated-by-ReadFrom")
 	if harness.WantSample() && s.maxLine > maxLine && s.nonASCII && len(c.Parts) <= 8 {
 		harness.Sample(render(c, o))
